@@ -42,8 +42,10 @@ func withJoiners(cfg Cfg, n int) Cfg {
 // 1.04 + 0.36 + 0.34 M states; 8 + 276 + 30 + 44 + 19 + 20 s), plus 4.3 M states in 3.2 min at
 // load average 75 (6 min at 115) for the persist-lag boxes B12, B12b, B12c, B12d, B12e (0.10 +
 // 0.93 + 1.49 + 1.19 + 0.55 M states; 5 + 48 + 71 + 43 + 21 s); quick B12 is 0.056 M states and
-// closes in 3.5-5.5 s. Every box stops at its share of the internal time budget (100 s quick,
-// 32 min thorough) and reports the bound it completed.
+// closes in 3.5-5.5 s; plus 9.6 M states in 5.3 min at load average 60 for the batch-proposal
+// boxes B13, B13b, B13c, B13d (2.06 + 1.73 + 0.64 + 5.13 M states; 78 + 56 + 18 + 163 s); quick B13
+// is 0.035 M states and closes in 1.5-3 s. Every box stops at its share of the internal time
+// budget (100 s quick, 39 min thorough) and reports the bound it completed.
 func makeBoxes(tier string) []*Box {
 	thorough := tier == "thorough"
 	pick := func(q, t int) int {
@@ -271,6 +273,87 @@ func makeBoxes(tier string) []*Box {
 			LeaderPropose: true, CampaignAt: 1, CollectAll: true,
 			Restrictions: []string{"one election, by node 1", "proposals at the leader only", "deviations: loss of any in-flight message, persist(n) / plag(n) while messages are in flight"}, Share: 50})
 	}
+	// ---- B13: proposals that carry several entries in one MsgProp (proposeBatch, see evBatch).
+	// Everywhere else a proposal is RawNode.Propose / ProposeConfChange: one entry per MsgProp.
+	// The API also accepts a MsgProp with several entries (RawNode.Step / Node.Step; a follower
+	// forwards it unchanged), and the leader's bookkeeping of the pending conf change
+	// (pendingConfIndex = index the conf change is about to get = last index + position in the
+	// batch + 1) is the one place where the position of an entry inside its proposal matters. With
+	// one entry per MsgApp (MaxSizePerMsg = 0) a batch [normal, confChange] is replicated,
+	// committed and applied entry by entry, so there are states in which the leader has applied
+	// the normal entry and the conf change right behind it is still uncommitted: in that window a
+	// further conf change must be refused (stored as an empty normal entry). If it were accepted,
+	// two single-step membership changes would be in flight at once, e.g. remove 2 and remove 3:
+	// both commit under {1,2,3}'s quorum {1,2}, node 1 ends up alone in {1} and commits on its
+	// own while {2,3}, still on {1,2,3}, elect a leader and commit something else at the same
+	// index.
+	//
+	// The window, hand-built (`raftmc scenario one C1 Q O107 D D D F11`): campaign(1) ..
+	// proposeBatch(1, [normal, removeV1(2)]) [5:b1.0 6:cc] deliver(App[5] 1->2) deliver(App[5] 1->3)
+	// deliver(AppResp 5 2->1) [leader commits and applies 5; App[6] to 2 and 3 in flight]
+	// proposeConf(1, removeV1(3)) -> must become 7:noop. One deviation (a conf change proposed
+	// while messages are in flight); without any deviation it is reached when the ack of 6 is
+	// lost (drop, one deviation, then proposeConf at the quiescent point) or when the leader
+	// applies asynchronously (B13b: lag(1) .. apply(1), no deviation: commit pagination splits
+	// the batch). The full story (`raftmc scenario one C1 Q K3 O107 D D D D D X0 F11 D D D X0 D P1
+	// R3 C2 Q`, 2 deviations, both message losses): crash(3) proposeBatch(1,[normal, remove 2]) ..
+	// drop(AppResp 6 2->1) proposeConf(1, remove 3) [7] .. deliver(AppResp 7 2->1) [commit 5 -> 7
+	// under {1,2,3}; 1 applies 6 and 7: voters {1}] drop(App commit=7 1->2) propose(1,p1) [8:p1
+	// committed by node 1 alone] restart(3) campaign(2) [2 and 3 still on {1,2,3}: 2 leads term 3,
+	// 8:noop@t3] -> LeaderCompleteness, 3 deliveries later StateMachineSafety (two entries
+	// committed at index 8). Budgets of that run: term <= 3, 1 batch, 1 conf change, 1 proposal,
+	// 1 crash, 2 drops: box B13c (crash / restart keeps node 3 out of the way) and B13d (the same
+	// with a network partition instead: isolate(3) .. heal()), both exhaustive for <= 2 losses.
+	//
+	// Invariant added with this family: AtMostOnePendingConfChange (inv.go) - the library's
+	// documented rule, on the leader's log; it flags the acceptance itself, 8 events before the
+	// functional damage. ElectionSafety / LeaderCompleteness / StateMachineSafety remain the
+	// functional oracle (a violating transition is not expanded, so with the structural
+	// invariant on, the search stops at the acceptance; RAFTMC_SKIP_INV=AtMostOnePendingConfChange
+	// shows the functional violation in B13c / B13d).
+	//
+	// Stated restrictions: B13 - one election, by node 1; any live node may step the batch (a
+	// follower forwards it), conf changes proper at the leader; every shape of batch
+	// ([normal, cc], [cc, normal], [normal, normal], [normal, cc, normal], [cc, cc]) with cc one of
+	// addV1(4), removeV1(3), removeV1(2), and one further conf change of the same three kinds
+	// (quick: 35 k states, 1.5-3 s; with two further conf changes 141 k states, 4-7 s, which did
+	// not fit its slice at load average 65); thorough: two further conf changes, a proposal, delay
+	// as a deviation. Exhaustive within these bounds for <= 1 deviation, no sampling.
+	batch4 := cfgOnePerMsg(3, true)
+	batch3 := cfgOnePerMsg(3, false)
+	ccBatch := []uint16{ccAddV1, ccRemoveV1, ccRemoveV1Second}
+	ccRemove := []uint16{ccRemoveV1, ccRemoveV1Second}
+	batchRestr := []string{"one election, by node 1", "proposeBatch at any live node (a follower forwards the MsgProp to the leader), proposeConf at the leader",
+		"conf changes (inside and outside batches): addV1(4), removeV1(3), removeV1(2)"}
+	if !thorough {
+		add(&Box{ID: "B13", Mode: "B", What: "multi-entry proposals (one MsgProp with a normal entry in front of / behind a conf change, two normal entries, two conf changes) with one entry per MsgApp: the batch is replicated, committed and applied entry by entry; a further conf change proposed while the batch's conf change is still unapplied must be neutralised",
+			Cfg: batch4, Bud: Budget{MaxTerm: 2, Drops: 1, ConfChanges: 1, Batches: 1},
+			Depth: 400, MaxDev: 1, Kinds: kinds(evCampaign, evConf, evBatch), Devs: kinds(evDrop, evConf, evBatch),
+			CampaignAt: 1, ConfVariants: ccBatch, Restrictions: append(append([]string(nil), batchRestr...), "deviations: loss of any in-flight message, proposeConf / proposeBatch while messages are in flight"), Share: 5})
+	} else {
+		add(&Box{ID: "B13", Mode: "B", What: "multi-entry proposals (one MsgProp with a normal entry in front of / behind a conf change, two normal entries, two conf changes) with one entry per MsgApp: the batch is replicated, committed and applied entry by entry; up to two further conf changes and a single proposal, before, inside or after the window in which the batch's conf change is unapplied; loss and arbitrary delay of any message (the acknowledgements of the batch's entries included)",
+			Cfg: batch4, Bud: Budget{MaxTerm: 2, Proposals: 1, Drops: 1, Delays: 1, ConfChanges: 2, Batches: 1},
+			Depth: 400, MaxDev: 1, Kinds: kinds(evCampaign, evPropose, evConf, evBatch), Devs: kinds(evDrop, evDelay, evPropose, evConf, evBatch),
+			CampaignAt: 1, ConfVariants: ccBatch, Restrictions: append(append([]string(nil), batchRestr...), "deviations: loss or delay (released at any later quiescent point) of any in-flight message, propose / proposeConf / proposeBatch while messages are in flight"), Share: 110})
+		add(&Box{ID: "B13b", Mode: "B", What: "multi-entry proposals with a leader that applies asynchronously (one committed entry per Ready): the leader has applied the normal entry of a batch and holds the page with the conf change behind it while further conf changes are proposed - the window without any message loss",
+			Cfg: batch4, Bud: Budget{MaxTerm: 2, Drops: 1, ConfChanges: 2, Batches: 1, Lags: 1, Applies: 3},
+			Depth: 400, MaxDev: 1, Kinds: kinds(evCampaign, evConf, evBatch, evLag, evApply, evUnlag), Devs: kinds(evDrop, evConf, evApply),
+			CampaignAt: 1, LagAt: 1, LeaderPropose: true, ConfVariants: ccBatch, BatchShapes: []uint16{bsNormalConf, bsConfNormal, bsNormalConfNormal, bsConfConf},
+			Restrictions: []string{"one election, by node 1", "only node 1 (the leader) enters lag mode", "batches and conf changes at the leader", "batch shapes with a conf change only",
+				"conf changes: addV1(4), removeV1(3), removeV1(2)", "deviations: loss of any in-flight message, proposeConf / apply(1) while messages are in flight"}, Share: 85})
+		add(&Box{ID: "B13c", Mode: "B", What: "the whole story of two overlapping single-node removals, with crash / restart: batch [normal, remove 2|3] at the leader while node 3 is down, a second removal proposed in the window, two message losses (an acknowledgement, the commit notification), a write on the shrunk side, restart and campaign on the old side (term 3)",
+			Cfg: batch3, Bud: Budget{MaxTerm: 3, Proposals: 1, Drops: 2, Crashes: 1, ConfChanges: 1, Batches: 1},
+			Depth: 400, MaxDev: 2, Kinds: kinds(evCampaign, evPropose, evConf, evBatch, evCrash, evRestart), Devs: kinds(evDrop),
+			LeaderPropose: true, CampaignBy: map[uint64][]int{0: {}, 1: {1}, 2: {2, 3}}, CrashAt: []int{3}, ConfVariants: ccRemove, BatchShapes: []uint16{bsNormalConf},
+			Restrictions: []string{"first election (term 2) by node 1 only, second election (term 3) by nodes 2 and 3 only", "only node 3 crashes", "proposals, the batch and the conf change at the leader",
+				"batch shape [normal, confChange]; conf changes: removeV1(3), removeV1(2)", "deviations: loss of any in-flight message (<= 2)"}, Share: 30})
+		add(&Box{ID: "B13d", Mode: "B", What: "the same story with a network partition instead of a crash: a member is cut off (its traffic is lost) and the partition heals or moves at any quiescent point; two message losses",
+			Cfg: batch3, Bud: Budget{MaxTerm: 3, Proposals: 1, Drops: 2, ConfChanges: 1, Batches: 1},
+			Depth: 400, MaxDev: 2, Kinds: kinds(evCampaign, evPropose, evConf, evBatch, evIsolate), Devs: kinds(evDrop),
+			LeaderPropose: true, CampaignBy: map[uint64][]int{0: {}, 1: {1}, 2: {2, 3}}, ConfVariants: ccRemove, BatchShapes: []uint16{bsNormalConf},
+			Restrictions: []string{"first election (term 2) by node 1 only, second election (term 3) by nodes 2 and 3 only", "proposals, the batch and the conf change at the leader",
+				"batch shape [normal, confChange]; conf changes: removeV1(3), removeV1(2)", "isolate(n) / heal() at quiescent points only", "deviations: loss of any in-flight message (<= 2)"}, Share: 250})
+	}
 	add(&Box{ID: "B4", Mode: "B", What: "membership changes: add node 4 as voter or as learner then promote, remove node 3 (also while it leads), joint consensus with automatic and explicit leave; two changes per run",
 		Cfg: cfgPlain(3, true), Bud: Budget{MaxTerm: 3, Drops: 9, Dups: 9, ConfChanges: 2},
 		Depth: 400, MaxDev: pick(1, 2), Kinds: kinds(evCampaign, evConf), Share: pick(10, 95)})
@@ -316,6 +399,9 @@ func makeBoxes(tier string) []*Box {
 			LagAt   uint8            `json:"lag_at"`
 			CampBy  map[uint64][]int `json:"campaign_by"`
 			ConfVar []uint16         `json:"conf_variants"`
+			BShapes []uint16         `json:"batch_shapes"`
+			BConf   []uint16         `json:"batch_conf"`
+			Share   int              `json:"share"`
 			CampAt  uint8            `json:"campaign_at"`
 			CrashAt []int            `json:"crash_at"`
 			PlagE   bool             `json:"plag_empty"`
@@ -361,6 +447,10 @@ func makeBoxes(tier string) []*Box {
 		}
 		b.LagAt, b.CampaignBy, b.ConfVariants, b.CampaignAt, b.CrashAt = t.LagAt, t.CampBy, t.ConfVar, t.CampAt, t.CrashAt
 		b.PlagEmpty = t.PlagE
+		b.BatchShapes, b.BatchConf = t.BShapes, t.BConf
+		if t.Share > 0 {
+			b.Share = t.Share
+		}
 		bs = append(bs, b)
 	}
 	for _, b := range bs {
